@@ -31,7 +31,9 @@ def gen_component(rng, style=None):
         # scalar values codecs and normalisers like to treat specially: byte-order marks and their mirror image, noncharacters,
         # line/paragraph separators, zero-width and bidi controls, a combining mark first, NFC next to NFD
         s = rng.pick(["\ufeffbom", "\ufffeab", "\ufeff", "\ufffe", "a\ufeff", "\uffff", "\ufdd0x", "\U0001fffe", "\u2028l", "a\u2029", "\u200bz", "\u202ea",
-                      "\u0301a", "\u00e9", "e\u0301", "\u212b", "\u00c5", "\ufb01", "\U0010ffff", "\ud7ff\ue000"]) + rng.pick(["", "", "q", "\ufeff"])
+                      "\u0301a", "\u00e9", "e\u0301", "\u212b", "\u00c5", "\ufb01", "\U0010ffff", "\ud7ff\ue000",
+                      # UTF-16 code units with a zero low byte next to ones with a zero high byte: 00 bytes that are no terminator
+                      "\u4e00.txt", "a\u0100", "\u0100\u0200b", "x\u4e00\u0100"]) + rng.pick(["", "", "q", "\ufeff"])
     elif style == "long":
         s = "".join(rng.pick(_ASCII + _BMP) for _ in range(rng.randint(40, 120)))
     else:
@@ -121,6 +123,12 @@ def materialize(rc) -> bytes:
             out.append(w)
             ln += len(w) + 1
         return (" ".join(out).encode() + b" " * n)[:n]
+    if tex == "half":
+        # about 2:1 compressible: 512 random bytes, 512 zeros, ... - one 1 MiB block of packed input decodes to about 2 MiB
+        out = bytearray()
+        while len(out) < n:
+            out += r.getrandbits(8 * 512).to_bytes(512, "little") + bytes(512)
+        return bytes(out[:n])
     if tex == "calls":
         # nothing but x86 CALL/JMP rel32 instructions whose operands the BCJ filter converts (high byte 00 / FF), after a
         # prefix of 0..4 bytes: wherever a piece or the stream ends, an operand straddles the cut
